@@ -2,10 +2,11 @@
 import Strengths.Driver.Units
 import Strengths.Driver.Grid
 import Strengths.Driver.Engine
+import Strengths.Driver.Lifecycle
 
 namespace Strengths.Driver
 
 def allOps : List (String × Handler) :=
-  unitsOps ++ gridOps ++ engineOps
+  unitsOps ++ gridOps ++ engineOps ++ lifecycleOps
 
 end Strengths.Driver
